@@ -6,11 +6,11 @@ namespace SaModel.Lemmas.C03
 open SaModel SaModel.Build SaModel.Spec SaModel.Lemmas.Bits
 
 theorem WFX_list {p large fm v offs el} (h : WFX (.list p large fm v offs el)) :
-    ((dec el).length : Int) ≤ offMax large ∧ WFX el := by simpa [WFX] using h
+    (∀ o ∈ offs, o ≤ offMax large) ∧ WFX el := by simpa [WFX] using h
 theorem WFX_fixedSizeList {p fm n len v cur el} (h : WFX (.fixedSizeList p fm n len v cur el)) : WFX el := by
   simpa [WFX] using h
 theorem WFX_map {p mm v offs ks vs} (h : WFX (.map p mm v offs ks vs)) :
-    ((dec ks).length : Int) ≤ 2147483647 ∧ WFX ks ∧ WFX vs := by simpa [WFX] using h
+    (∀ o ∈ offs, o ≤ 2147483647) ∧ WFX ks ∧ WFX vs := by simpa [WFX] using h
 theorem WFX_struct {p len v fs cached next seen} (h : WFX (.struct p len v fs cached next seen)) : WFXL fs := by
   simpa [WFX] using h
 theorem WFX_union {p fs types offs cur} (h : WFX (.union p fs types offs cur)) : WFXL fs := by
